@@ -278,8 +278,8 @@ const BOTH_STUB: &[&str] = &[
 const NT: &str = "non-trivial = at least one fault or rare-condition probe fired in the run; distinct = distinct interleaving signature (hash of the (task, event kind, result kind) sequence)";
 
 pub fn checks() -> Vec<CheckSpec> {
-    let q = 400_000;
-    let t = 8_000_000;
+    let q = 1_200_000;
+    let t = 40_000_000;
     vec![
         spec("C01", "exploration",
             vec![gen("client.general", 3, g_client_general), gen("client.abandon", 1, g_client_abandon), gen("client.deadlines", 1, g_client_deadlines)],
@@ -317,7 +317,7 @@ pub fn checks() -> Vec<CheckSpec> {
             &["timer granularity 1 ms modelled as 2 ms slack"]),
         spec("C07", "exploration",
             vec![gen("bytes.roundtrip", 2, g_bytes_roundtrip), gen("server.general", 1, g_server_general), gen("server.deadlines", 1, g_server_deadlines), gen("e2e.deadlines", 3, g_e2e_deadlines), gen("e2e.general", 1, g_e2e_general)],
-            q / 4, t / 4,
+            q / 6, t / 6,
             "request deadlines 0 ms .. 1 h (including already expired at encode time) through JSON and bincode over a SimPipe with virtual latency and through the in-memory transport; the decoded / handler-observed deadline is compared with the caller's deadline and the measured transit time; JSON requests that omit the deadline must get decode time + 10 s",
             &["tarpc::context deadline (de)serialisation, serde_transport, wire types (real)", "BaseChannel / Requests / execute passing the request context to the handler (real)"],
             &["byte stream: SimPipe with virtual latency", "peers and handlers: scripted"],
@@ -362,14 +362,14 @@ pub fn checks() -> Vec<CheckSpec> {
             BOTH_REAL, BOTH_STUB, &[]),
         spec("C15", "exploration",
             vec![gen("bytes.roundtrip", 1, g_bytes_roundtrip)],
-            q, t,
+            q / 4, t / 8,
             "sequences of 0-12 protocol messages (all variants, boundary ids, trace ids 0/1/max, empty/unicode/64 KiB bodies, every io::ErrorKind) through serde_transport with JSON and bincode over a SimPipe that fragments reads and writes, returns Pending, limits capacity and adds latency, and through the in-memory bounded/unbounded channels; writer dropped or closed; hand-built JSON frames omitting optional fields",
             &["tarpc::serde_transport::Transport + tokio_serde Json/Bincode + LengthDelimitedCodec (real)", "tarpc::transport::channel::{unbounded,bounded} (real)", "wire types, util::serde error-kind table, trace u128 encoding, context deadline (de)serialisation (real)"],
             &["byte stream: SimPipe (partial reads/writes, Pending, capacity, latency decided by the tape)", "writer and reader tasks: simulator"],
             &["split positions are sampled by the tape (byte-by-byte reads are one of the configurations), not enumerated"]),
         spec("C16", "exploration",
             vec![gen("client.extreme", 2, g_client_extreme), gen("server.extreme", 2, g_server_extreme), gen("bytes.adversary", 3, g_bytes_adversary)],
-            200_000, 4_000_000,
+            q / 4, t / 8,
             "boundary-valued deadlines (0, 2^36 ms +-1, 100 and 8000 years, u64::MAX s, max nanos) from callers and peers, with no subscriber / fmt subscriber / OpenTelemetry SDK layer",
             BOTH_REAL, BOTH_STUB, &[]),
         spec("C18", "exploration",
